@@ -487,6 +487,9 @@ class Array(metaclass=MetaArray):
         ):  # is a scalar type:
             if not isinstance(value, buffer.context.nplike_array_type):
                 value = buffer.context.nparray_to_context_array(value)
+            if list(info.order) != list(range(len(info.shape))):
+                # not C order: store the data in memory order
+                value = value.transpose(info.order).copy()
             buffer.update_from_nplike(coffset, cls._itemtype._dtype, value)
         elif isinstance(value, cls):
             if value._size == info.size:
